@@ -9,6 +9,7 @@ import LdkModel.Proofs.Bolt11
 import LdkModel.Proofs.Bolt11Bounds
 import LdkModel.Proofs.Bits
 import LdkModel.Proofs.OfferMeta
+import LdkModel.Model.OfferMirror
 namespace Ldk.C18
 open Ldk.Prim.Bech32
 
@@ -364,6 +365,46 @@ theorem merkle_binding_ideal (H : Tag → Bytes → Bytes) (hH : CollisionFree H
     (he : rootHash H rs₁ = rootHash H rs₂) : nonSig rs₁ = nonSig rs₂ :=
   merkle_binding H rs₁ rs₂ (hH.on _) h₁ h₂ he
 
+/-- Converse (what the signature does NOT cover): the root depends on the stream only through its
+    first record and its non-signature records.  Holds for EVERY record list — invoice requests,
+    invoices, static invoices all sign `TaggedHash::from_valid_tlv_stream_bytes` of their whole byte
+    string, i.e. this one `root_hash`; every such message starts with a record below 240. -/
+theorem merkle_root_ignores_signature_records (H : Tag → Bytes → Bytes) (rs₁ rs₂ : List Rec)
+    (hf₁ : ∀ r ∈ rs₁.head?, isSig r = false) (hf₂ : ∀ r ∈ rs₂.head?, isSig r = false)
+    (hn : nonSig rs₁ = nonSig rs₂) : rootHash H rs₁ = rootHash H rs₂ := by
+  match rs₁, rs₂, hf₁, hf₂, hn with
+  | [], [], _, _, _ => rfl
+  | [], f₂ :: r₂, _, hf₂, hn =>
+    have h2 : isSig f₂ = false := hf₂ f₂ (by simp)
+    simp [nonSig, List.filter_cons, h2] at hn
+  | f₁ :: r₁, [], hf₁, _, hn =>
+    have h1 : isSig f₁ = false := hf₁ f₁ (by simp)
+    simp [nonSig, List.filter_cons, h1] at hn
+  | f₁ :: r₁, f₂ :: r₂, hf₁, hf₂, hn =>
+    have h1 : isSig f₁ = false := hf₁ f₁ (by simp)
+    have h2 : isSig f₂ = false := hf₂ f₂ (by simp)
+    have hff : f₁ = f₂ := by
+      have := hn
+      simp only [nonSig, List.filter_cons, h1, h2, Bool.not_false, ↓reduceIte, List.cons.injEq] at this
+      exact this.1
+    subst hff
+    simp only [rootHash, hn]
+
+/-- Signature coverage, both directions, for ALL record sets: on ascending streams that start with a
+    non-signature record, two streams have the same merkle root (hence the same signed digest) IF AND
+    ONLY IF they have the same non-signature records — the root covers exactly those.  (⇒ needs the
+    tagged hash to be collision free on the queries made, as in `merkle_binding`.) -/
+theorem signature_covers_exactly_non_signature_records (H : Tag → Bytes → Bytes) (rs₁ rs₂ : List Rec)
+    (hcf : CollisionFreeOn H (queriesOf H rs₁ ++ queriesOf H rs₂))
+    (h₁ : rs₁.Pairwise (fun a b => a.ty < b.ty)) (h₂ : rs₂.Pairwise (fun a b => a.ty < b.ty))
+    (hf₁ : ∀ r ∈ rs₁.head?, isSig r = false) (hf₂ : ∀ r ∈ rs₂.head?, isSig r = false) :
+    rootHash H rs₁ = rootHash H rs₂ ↔ nonSig rs₁ = nonSig rs₂ :=
+  ⟨merkle_binding H rs₁ rs₂ hcf h₁ h₂, merkle_root_ignores_signature_records H rs₁ rs₂ hf₁ hf₂⟩
+
+/-- non-vacuity: a signature record (type 240) appended or changed leaves the root alone -/
+example (H : Tag → Bytes → Bytes) : rootHash H [⟨[1], [1, 1, 7]⟩, ⟨[240], [240, 1, 5]⟩] = rootHash H [⟨[1], [1, 1, 7]⟩, ⟨[240], [240, 1, 6]⟩] :=
+  merkle_root_ignores_signature_records H _ _ (by decide) (by decide) (by decide)
+
 /-- The list formulation the binding theorem is about IS the in-place loop of `root_hash`
     (`leaves[i] = branch(leaves[i], leaves[i + offset])` for `i = 0, step, 2·step, …`, level after
     level, result in slot 0) — for every record list and every tagged hash. -/
@@ -430,8 +471,21 @@ theorem metadata_verify_iff (hlen : ∀ k m, (mac k m).length = 32) (key iv pk t
       simp only [h16, ↓reduceIte]
       rw [List.take_left' hn, List.drop_left' hn]
 
+/-- WHICH representation of the two public keys `verify_metadata` compares.  `C18Meta.keysEq` is
+    translated from the Rust text of signer.rs on every run (tools/gen_c18_meta.py): the comparison is
+    equality of the FULL 33-byte compressed keys, parity byte included.  (Were the source to compare
+    BIP-340 x-only keys, the generated definition would drop the first byte of both operands and this
+    theorem — and with it `metadata_verify_keys_iff` — would no longer check.) -/
+theorem metadata_key_comparison_is_full_key (a b : Bytes) : C18Meta.keysEq a b = true ↔ a = b :=
+  keysEq_iff a b
+
+example : C18Meta.keysEq (2 :: List.replicate 32 7) (2 :: List.replicate 32 7) = true := by decide
+example : C18Meta.keysEq (2 :: List.replicate 32 7) (3 :: List.replicate 32 7) = false := by decide
+
 /-- …and with key derivation (16-byte metadata = nonce only): the verdict carries the HMAC as the
-    signing secret, accepted exactly when its public key is the signing key of the message. -/
+    signing secret, accepted exactly when its public key IS the signing key of the message — as a
+    full compressed key (the proof goes through the generated comparison, `verifyTail_keys` /
+    `keysEq_iff`). -/
 theorem metadata_verify_keys_iff (key iv pk tlvs md sk : Bytes) :
     verifyRecipient mac pubOf key iv pk tlvs md = .okKeys sk ↔
       md.length = 16 ∧ sk = (deriveMetadataAndKey mac key iv md none tlvs).2 ∧ pubOf sk = pk := by
@@ -453,6 +507,80 @@ theorem metadata_verify_keys_iff (key iv pk tlvs md sk : Bytes) :
       have ht : List.take 16 md = md := List.take_of_length_le (by omega)
       simp only [h16, ↓reduceIte, ht]
       exact ⟨trivial, trivial, hp⟩
+
+example : verifyRecipient (fun _ _ => List.replicate 32 7) (fun _ => 2 :: List.replicate 32 9) [] [] (2 :: List.replicate 32 9) []
+    (List.replicate 16 1) = .okKeys (List.replicate 32 7) := by decide
+
+/-- The alteration the issuer id / payer id is protected against ONLY by the key comparison (those
+    records are excluded from the MAC input when the key is derived): the same message with the PARITY
+    byte of its signing key flipped (0x02 <-> 0x03 — a different valid key, the negated point) is
+    refused whenever the original verifies with derived keys. -/
+theorem metadata_verify_refuses_parity_flip (key iv pk tlvs md sk : Bytes) (hpk : pk ≠ [])
+    (h : verifyRecipient mac pubOf key iv pk tlvs md = .okKeys sk) :
+    verifyRecipient mac pubOf key iv (SecpKey.PublicKey.flipParity pk) tlvs md = .err := by
+  have hk := (metadata_verify_keys_iff mac pubOf key iv pk tlvs md sk).mp h
+  have hne : SecpKey.PublicKey.flipParity pk ≠ pk := flipParity_ne pk hpk
+  cases hv : verifyRecipient mac pubOf key iv (SecpKey.PublicKey.flipParity pk) tlvs md with
+  | err => rfl
+  | okNoKeys =>
+    have := (verifyRecipient_noKeys_len mac pubOf key iv _ tlvs md).mp hv
+    omega
+  | okKeys sk' =>
+    have hk' := (metadata_verify_keys_iff mac pubOf key iv _ tlvs md sk').mp hv
+    obtain ⟨_, rfl, hp⟩ := hk
+    obtain ⟨_, rfl, hp'⟩ := hk'
+    exact absurd (hp'.symm.trans hp) hne
+
+example : verifyRecipient (fun _ _ => List.replicate 32 7) (fun _ => 2 :: List.replicate 32 9) [] [] (3 :: List.replicate 32 9) []
+    (List.replicate 16 1) = .err := by decide
+
+/-- Payer side with key derivation (48-byte payer metadata = encrypted payment id ‖ nonce): accepted
+    exactly when the public key of the HMAC IS the payer signing key, again as a full compressed key. -/
+theorem payer_metadata_verify_keys_iff (key iv pk tlvs md sk : Bytes) :
+    verifyPayer mac pubOf key iv pk tlvs md = .okKeys sk ↔
+      md.length = 48 ∧ sk = (deriveMetadataAndKey mac key iv (md.drop 32) (some (md.take 32)) tlvs).2 ∧ pubOf sk = pk := by
+  unfold verifyPayer
+  simp only [PAYMENT_ID_LEN]
+  by_cases hl32 : md.length < 32
+  · simp only [hl32, ↓reduceIte]
+    constructor
+    · intro h; simp at h
+    · rintro ⟨h, _⟩; omega
+  · simp only [hl32, ↓reduceIte]
+    by_cases hl : (md.drop 32).length < 16
+    · have : verifyHmac mac key iv (md.drop 32) (some (md.take 32)) tlvs = none := by
+        have hl' := hl
+        simp only [List.length_drop] at hl'
+        simp [verifyHmac, NONCE_LEN, hl']
+      simp only [this]
+      constructor
+      · intro h; simp at h
+      · rintro ⟨h, _⟩; simp only [List.length_drop] at hl; omega
+    · rw [verifyHmac_eq mac key iv _ _ tlvs hl]
+      simp only [verifyTail_keys, deriveMetadataAndKey, List.length_drop]
+      constructor
+      · rintro ⟨h16, rfl, hp⟩
+        have ht : List.take 16 (md.drop 32) = md.drop 32 := List.take_of_length_le (by simp only [List.length_drop]; omega)
+        simp only [h16, ↓reduceIte, ht] at hp ⊢
+        exact ⟨by omega, trivial, hp⟩
+      · rintro ⟨h48, rfl, hp⟩
+        have h16 : md.length - 32 = 16 := by omega
+        have ht : List.take 16 (md.drop 32) = md.drop 32 := List.take_of_length_le (by simp only [List.length_drop]; omega)
+        simp only [h16, ↓reduceIte, ht]
+        exact ⟨trivial, trivial, hp⟩
+
+theorem payer_metadata_verify_refuses_parity_flip (key iv pk tlvs md sk : Bytes) (hpk : pk ≠ [])
+    (h : verifyPayer mac pubOf key iv pk tlvs md = .okKeys sk) :
+    verifyPayer mac pubOf key iv (SecpKey.PublicKey.flipParity pk) tlvs md ≠ .okKeys sk := by
+  intro hv
+  obtain ⟨_, _, hp⟩ := (payer_metadata_verify_keys_iff mac pubOf key iv pk tlvs md sk).mp h
+  obtain ⟨_, _, hp'⟩ := (payer_metadata_verify_keys_iff mac pubOf key iv _ tlvs md sk).mp hv
+  exact flipParity_ne pk hpk (hp'.symm.trans hp)
+
+example : verifyPayer (fun _ _ => List.replicate 32 7) (fun _ => 2 :: List.replicate 32 9) [] [] (2 :: List.replicate 32 9) []
+    (List.replicate 48 1) = .okKeys (List.replicate 32 7) := by decide
+example : verifyPayer (fun _ _ => List.replicate 32 7) (fun _ => 2 :: List.replicate 32 9) [] [] (3 :: List.replicate 32 9) []
+    (List.replicate 48 1) = .err := by decide
 
 /-- Payer metadata (an invoice request's / refund's `payer_metadata`): a 32-byte encrypted payment
     id, then the recipient layout; same statement with the id bound into the MAC. -/
@@ -601,6 +729,73 @@ example : invoiceCovered true [⟨[0], [0, 1, 5]⟩, ⟨[88], [88, 1, 9]⟩, ⟨
 example : invoiceCovered false [⟨[0], [0, 1, 5]⟩, ⟨[88], [88, 1, 9]⟩, ⟨[160], [160, 0]⟩] = [⟨[88], [88, 1, 9]⟩] := by decide
 
 end metadata
+
+/-! ## BOLT-12: an invoice request carries the offer's records, an invoice the request's — as bytes
+    The write plans `invreqPlan` / `invoicePlan` are translated from UnsignedInvoiceRequest::new /
+    UnsignedBolt12Invoice::new (+ sign) on every run (tools/gen_c18_mirror.py). -/
+section mirror
+open Ldk.OfferMirror Ldk.C18Mirror
+open Ldk.OfferMeta (rangeRecs mem_rangeRecs)
+open Ldk.Merkle (Rec parseStream)
+
+/-- what is copied is a contiguous piece of the source, records untouched (a `Rec` carries its raw bytes) -/
+theorem mirror_copy_sublist (lo hi : Nat) (rs : List Rec) : (rangeRecs lo hi rs).Sublist rs :=
+  (List.takeWhile_sublist _).trans (List.dropWhile_sublist _)
+
+/-- "Cannot be altered", offer → invoice request: for EVERY well-formed ascending offer byte string
+    and every content of the request's own streams, the signed invoice request is
+    `payer ‖ (offer records 1..80, copied) ‖ own records ‖ signature ‖ (experimental offer records of the
+    remaining offer bytes, copied) ‖ own experimental records`, and EVERY offer record of the range
+    1..80 is among the copied ones, byte for byte (unknown odd records included). -/
+theorem invreq_mirrors_offer (src : List UInt8) (rs : List Rec) (o : Own) (out : List UInt8)
+    (hp : parseStream src = some rs) (hasc : rs.Pairwise (fun a b => a.ty < b.ty))
+    (hb : build invreqPlan src o = some out) :
+    (∃ rest, parseStream (src.drop (recsBytes (rangeRecs OFFER_TYPES_LO OFFER_TYPES_HI rs)).length) = some rest ∧
+      out = o.payer ++ recsBytes (rangeRecs OFFER_TYPES_LO OFFER_TYPES_HI rs) ++ o.own ++ o.sig ++
+        recsBytes (rangeRecs EXPERIMENTAL_OFFER_TYPES_LO EXPERIMENTAL_OFFER_TYPES_HI rest) ++ o.expOwn) ∧
+    (∀ r ∈ rs, 1 ≤ r.ty → r.ty < 80 → r ∈ rangeRecs OFFER_TYPES_LO OFFER_TYPES_HI rs) := by
+  refine ⟨?_, fun r hr h1 h2 => mem_rangeRecs _ _ rs r hasc hr h1 h2⟩
+  simp only [build, invreqPlan, runPlan, stepSeg, hp, Own.get, List.nil_append, Nat.zero_add] at hb
+  cases hrest : parseStream (src.drop (recsBytes (rangeRecs 1 80 rs)).length) with
+  | none => simp [hrest] at hb
+  | some rest =>
+    simp only [hrest, Option.map_some, Option.some.injEq] at hb
+    exact ⟨rest, hrest, by rw [← hb]; simp [OFFER_TYPES_LO, OFFER_TYPES_HI, EXPERIMENTAL_OFFER_TYPES_LO, EXPERIMENTAL_OFFER_TYPES_HI]⟩
+
+/-- invoice request (or refund) → invoice: the same with the ranges 0..160 and 10⁹..3·10⁹: payer
+    metadata, mirrored offer records and the request's own records all reappear as the bytes received. -/
+theorem invoice_mirrors_request (src : List UInt8) (rs : List Rec) (o : Own) (out : List UInt8)
+    (hp : parseStream src = some rs) (hasc : rs.Pairwise (fun a b => a.ty < b.ty))
+    (hb : build invoicePlan src o = some out) :
+    (∃ rest, parseStream (src.drop (recsBytes (rangeRecs 0 INVOICE_REQUEST_TYPES_HI rs)).length) = some rest ∧
+      out = recsBytes (rangeRecs 0 INVOICE_REQUEST_TYPES_HI rs) ++ o.own ++ o.sig ++
+        recsBytes (rangeRecs EXPERIMENTAL_OFFER_TYPES_LO EXPERIMENTAL_INVOICE_REQUEST_TYPES_HI rest) ++ o.expOwn) ∧
+    (∀ r ∈ rs, r.ty < 160 → r ∈ rangeRecs 0 INVOICE_REQUEST_TYPES_HI rs) := by
+  refine ⟨?_, fun r hr h2 => mem_rangeRecs _ _ rs r hasc hr (Nat.zero_le _) h2⟩
+  simp only [build, invoicePlan, runPlan, stepSeg, hp, Own.get, List.nil_append, Nat.zero_add] at hb
+  cases hrest : parseStream (src.drop (recsBytes (rangeRecs 0 160 rs)).length) with
+  | none => simp [hrest] at hb
+  | some rest =>
+    simp only [hrest, Option.map_some, Option.some.injEq] at hb
+    exact ⟨rest, hrest, by rw [← hb]; simp [INVOICE_REQUEST_TYPES_HI, EXPERIMENTAL_OFFER_TYPES_LO, EXPERIMENTAL_INVOICE_REQUEST_TYPES_HI]⟩
+
+/-- non-vacuity: an offer with a known record (10), an unknown odd record (77) and an experimental one -/
+example : build invreqPlan [10, 1, 65, 77, 2, 1, 2, 0xfe, 0x3b, 0x9a, 0xca, 0x01, 1, 9] ⟨[0, 1, 5], [88, 1, 3], [], [240, 1, 7]⟩
+    = some [0, 1, 5, 10, 1, 65, 77, 2, 1, 2, 88, 1, 3, 240, 1, 7, 0xfe, 0x3b, 0x9a, 0xca, 0x01, 1, 9] := by decide
+
+/-- the record ranges the hand-written coverage model (Model/OfferMeta.lean: `offerCovered`,
+    `invoiceCovered`) uses ARE the range constants of the source (translated by gen_c18_mirror.py) -/
+theorem coverage_ranges_match_source :
+    OfferMeta.OFFER_TYPES_LO = OFFER_TYPES_LO ∧ OfferMeta.OFFER_TYPES_HI = OFFER_TYPES_HI ∧
+    OfferMeta.EXPERIMENTAL_OFFER_TYPES_LO = EXPERIMENTAL_OFFER_TYPES_LO ∧
+    OfferMeta.EXPERIMENTAL_OFFER_TYPES_HI = EXPERIMENTAL_OFFER_TYPES_HI ∧
+    OfferMeta.INVOICE_REQUEST_TYPES_LO = INVOICE_REQUEST_TYPES_LO ∧
+    OfferMeta.INVOICE_REQUEST_TYPES_HI = INVOICE_REQUEST_TYPES_HI ∧
+    OfferMeta.EXPERIMENTAL_INVOICE_REQUEST_TYPES_HI = EXPERIMENTAL_INVOICE_REQUEST_TYPES_HI := by decide
+
+example : OfferMeta.OFFER_TYPES_HI = 80 := rfl
+
+end mirror
 
 /-! ## BOLT-11: numeric bounds and field widths
     Every comparison, literal and panic site below is a definition of `Generated/C18Bounds.lean`,
